@@ -17,48 +17,48 @@ package signal
 // ---------------------------------------------------------------------------
 
 //@ func channels.Channels(c)
-//@   props C01 C02 C03 C05 C10 C12 C14 C15 C18 C19 C20
+//@   props C01 C02 C03 C05 C10 C12 C14 C15
 //@   pure
 //@   ensures result == c
 
 //@ func bitDepth.BitDepth(bd)
-//@   props C05 C06 C07 C08 C09 C13 C18 C19
+//@   props C05 C06 C07 C08 C09 C13
 //@   pure
 //@   ensures result == bd
 
 //@ func channels.BufferIndex(c, channel, idx)
-//@   props C01 C02 C14 C18 C19
+//@   props C01 C02 C14
 //@   theory defined
 //@   pure
 //@   requires inInt64(bi(c, 0, idx)) && inInt64(bi(c, channel, idx))
 //@   ensures result == bi(c, channel, idx)
 
 //@ func Buffer.Len(b)
-//@   props C01 C03 C04 C05 C10 C12 C18 C19 C20
+//@   props C01 C03 C04 C05 C10 C12
 //@   pure
 //@   requires b >= 0
 //@   ensures result == len(b.data)
 
 //@ func Buffer.Cap(b)
-//@   props C03 C04 C10 C12 C15 C18 C19 C20
+//@   props C03 C04 C10 C12 C15
 //@   pure
 //@   requires b >= 0
 //@   ensures result == cap(b.data)
 
 //@ func Buffer.Sample(b, i)
-//@   props C01 C03 C05 C12 C14 C18 C19
+//@   props C01 C03 C05 C12 C14
 //@   pure
 //@   requires b >= 0 && 0 <= i && i < len(b.data)
 //@   ensures result == at(b, i)
 
 //@ func Buffer.SetSample(b, i, v)
-//@   props C01 C03 C05 C10 C12 C14 C18 C19
+//@   props C01 C03 C05 C10 C12 C14
 //@   requires b >= 0 && 0 <= i && i < len(b.data)
 //@   ensures stored(b, i, v)
 //@   modifies H(b)
 
 //@ func min(v1, v2)
-//@   props C01 C05 C18 C19 C20
+//@   props C01 C05
 //@   pure
 //@   ensures result == min(v1, v2)
 
@@ -68,37 +68,44 @@ package signal
 //@   panics-iff a != b
 
 //@ func Buffer.Capacity(b)
-//@   props C02 C03 C04 C12 C13 C14 C18 C19 C20
+//@   props C02 C03 C04 C12 C13 C14
 //@   theory defined
 //@   pure
+//@   variant C20 b.channels == 0 || cap(b.data) == 0
 //@   requires wf(b)
 //@   ensures result == ite(b.channels == 0, 0, fdiv(cap(b.data), b.channels))
+//@   ensures[inert: C20] (b.channels == 0 || cap(b.data) == 0) ==> result == 0
 
 //@ func Buffer.Length(b)
-//@   props C01 C02 C03 C04 C05 C12 C13 C14 C18 C19 C20
+//@   props C01 C02 C03 C04 C05 C12 C13 C14
 //@   mode realfloat
 //@   theory defined
 //@   pure
+//@   variant C20 b.channels == 0 || len(b.data) == 0
 //@   requires wf(b)
 //@   rndhint cdiv(len(b.data), b.channels)
 //@   ensures result == ite(b.channels == 0, 0, cdiv(len(b.data), b.channels))
+//@   ensures[inert: C20] (b.channels == 0 || len(b.data) == 0) ==> result == 0
 
 //@ func ChannelLength(sliceLen, channels)
-//@   props C01 C05 C20
+//@   props C01 C05
 //@   mode realfloat
 //@   theory defined
 //@   pure
-//@   requires 0 <= sliceLen && sliceLen <= pow2(48) && 0 <= channels
+//@   variant C20 channels == 0 || sliceLen == 0
+//@   requires 0 <= sliceLen && sliceLen <= pow2(52) && 0 <= channels
 //@   rndhint cdiv(sliceLen, channels)
 //@   ensures[count: C01] channels >= 1 ==> result == cdiv(sliceLen, channels)
 //@   ensures[zero-channels: C20] channels == 0 ==> result == 0
+//@   ensures[inert: C20] (channels == 0 || sliceLen == 0) ==> result == 0
 
 // ---------------------------------------------------------------------------
 // views
 // ---------------------------------------------------------------------------
 
 //@ func Buffer.Slice(b, start, end)
-//@   props C02 C12 C18 C19 C20
+//@   props C02 C12
+//@   variant C20 start == 0 && end == 0
 //@   requires wf(b)
 //@   requires b.channels >= 1 || (start == 0 && end == 0)
 //@   hint bi_sub(b.channels, fdiv(cap(b.data), b.channels), start)
@@ -123,7 +130,8 @@ package signal
 //@   modifies hdr(b) obj(b) allocs
 
 //@ func Buffer.AppendSample(b, v)
-//@   props C04 C12 C18 C20
+//@   props C04 C12
+//@   variant C20 cap(b.data) == 0
 //@   requires wf(b)
 //@   ensures[stored] old(len(b.data)) < old(cap(b.data)) ==> len(b.data) == old(len(b.data)) + 1
 //@     | && at(b, old(len(b.data))) == v && sameExcept(b, old(len(b.data)), old(len(b.data)) + 1)
@@ -132,11 +140,13 @@ package signal
 //@     | && b.channels == old(b.channels) && b.bitDepth == old(b.bitDepth) && hdrSameExcept(b)
 //@   ensures[no-alloc: C04 C18] allocs == old(allocs) && brk(b) == old(brk(b))
 //@   ensures[wf] wf(b)
+//@   ensures[inert: C20] old(cap(b.data)) == 0 ==> len(b.data) == 0 && cap(b.data) == 0 && heapSame(b)
 //@   modifies H(b) hdr(b)
 
 //@ func Buffer.Channel(b, c)
-//@   props C14 C18 C19
+//@   props C14
 //@   pure
+//@   variant C20 b.channels == 0
 //@   ensures result.Buffer == b && result.channel == c
 
 //@ func C.BufferIndex(c, channel, index)
@@ -166,7 +176,7 @@ package signal
 
 //@ func C.Sample(c, index)
 //@   theory defined
-//@   props C14 C18 C19
+//@   props C14
 //@   pure
 //@   requires wf(c.Buffer) && 0 <= c.channel && c.channel < c.Buffer.channels
 //@   requires 0 <= index && index < cdiv(len(c.Buffer.data), c.Buffer.channels) && aligned(c.Buffer)
@@ -174,7 +184,7 @@ package signal
 
 //@ func C.SetSample(c, index, s)
 //@   theory defined
-//@   props C14 C18 C19
+//@   props C14
 //@   requires wf(c.Buffer) && 0 <= c.channel && c.channel < c.Buffer.channels
 //@   requires 0 <= index && index < cdiv(len(c.Buffer.data), c.Buffer.channels) && aligned(c.Buffer)
 //@   ensures[stored: C14] stored(c.Buffer, bi(c.Buffer.channels, c.channel, index), s)
@@ -187,7 +197,9 @@ package signal
 
 
 //@ func Write[S,D](src, dst)
-//@   props C01 C18 C19 C20
+//@   props C01 C12
+//@   variant C20 len(dst.data) == 0 || len(src) == 0
+//@   hint cdiv_def(0, dst.channels)
 //@   requires wf(dst) && disjoint(src, dst)
 //@   let n = min(len(dst.data), len(src))
 //@   ensures[values: C01] forall(k, 0, n, at(dst, k) == K(old(src[k])))
@@ -195,6 +207,7 @@ package signal
 //@   ensures[frame: C01 C19 C20] sameExcept(dst, 0, n) && hdrSame(dst)
 //@   ensures[count: C01 C20] result == ite(dst.channels == 0, 0, cdiv(n, dst.channels))
 //@   ensures[no-alloc: C18] allocs == old(allocs)
+//@   ensures[inert: C20] (len(dst.data) == 0 || len(src) == 0) ==> result == 0 && heapSame(dst)
 //@   modifies H(dst)
 //@   loop 1 kernel
 //@     invariant 0 <= $i && $i <= n
@@ -203,7 +216,9 @@ package signal
 //@     decreases n - $i
 
 //@ func Read[S,D](src, dst)
-//@   props C01 C18 C19 C20
+//@   props C01
+//@   variant C20 len(src.data) == 0 || len(dst) == 0
+//@   hint cdiv_def(0, src.channels)
 //@   requires wf(src) && disjoint(src, dst)
 //@   let n = min(len(src.data), len(dst))
 //@   ensures[values: C01] forall(k, 0, n, dst[k] == K(old(at(src, k))))
@@ -211,6 +226,7 @@ package signal
 //@   ensures[frame: C01 C19 C20] sameExcept(dst, 0, n) && hdrSame(src)
 //@   ensures[count: C01 C20] result == ite(src.channels == 0, 0, cdiv(n, src.channels))
 //@   ensures[no-alloc: C18] allocs == old(allocs)
+//@   ensures[inert: C20] (len(src.data) == 0 || len(dst) == 0) ==> result == 0 && heapSame(dst)
 //@   modifies H(dst)
 //@   loop 1 kernel
 //@     invariant 0 <= $i && $i <= n
@@ -272,7 +288,8 @@ package signal
 // ---------------------------------------------------------------------------
 
 //@ func FloatAsFloat[S,D](src, dst)
-//@   props C05 C18 C19 C20
+//@   props C05
+//@   variant C20 len(src.data) == 0 || len(dst.data) == 0
 //@   requires wf(src) && wf(dst) && disjoint(src, dst)
 //@   panics-iff[channels: C15] src.channels != dst.channels
 //@   let n = min(len(src.data), len(dst.data))
@@ -283,6 +300,7 @@ package signal
 //@   ensures[count: C05 C20] result == min(ite(src.channels == 0, 0, cdiv(len(src.data), src.channels)),
 //@     | ite(dst.channels == 0, 0, cdiv(len(dst.data), dst.channels)))
 //@   ensures[no-alloc: C18] allocs == old(allocs)
+//@   ensures[inert: C20] (len(src.data) == 0 || len(dst.data) == 0) ==> result == 0 && heapSame(dst)
 //@   modifies H(dst)
 //@   loop 1 kernel
 //@     invariant 0 <= $i && $i <= n
@@ -291,7 +309,8 @@ package signal
 //@     decreases n - $i
 
 //@ func FloatAsSigned[S,D](src, dst)
-//@   props C05 C18 C19 C20
+//@   props C05
+//@   variant C20 len(src.data) == 0 || len(dst.data) == 0
 //@   requires wf(src) && wf(dst) && disjoint(src, dst)
 //@   panics-iff[channels: C15] src.channels != dst.channels
 //@   let n = min(len(src.data), len(dst.data))
@@ -302,6 +321,7 @@ package signal
 //@   ensures[count: C05 C20] result == min(ite(src.channels == 0, 0, cdiv(len(src.data), src.channels)),
 //@     | ite(dst.channels == 0, 0, cdiv(len(dst.data), dst.channels)))
 //@   ensures[no-alloc: C18] allocs == old(allocs)
+//@   ensures[inert: C20] (len(src.data) == 0 || len(dst.data) == 0) ==> result == 0 && heapSame(dst)
 //@   modifies H(dst)
 //@   loop 1 kernel
 //@     invariant 0 <= $i && $i <= n
@@ -310,7 +330,8 @@ package signal
 //@     decreases n - $i
 
 //@ func FloatAsUnsigned[S,D](src, dst)
-//@   props C05 C18 C19 C20
+//@   props C05
+//@   variant C20 len(src.data) == 0 || len(dst.data) == 0
 //@   requires wf(src) && wf(dst) && disjoint(src, dst)
 //@   panics-iff[channels: C15] src.channels != dst.channels
 //@   let n = min(len(src.data), len(dst.data))
@@ -321,6 +342,7 @@ package signal
 //@   ensures[count: C05 C20] result == min(ite(src.channels == 0, 0, cdiv(len(src.data), src.channels)),
 //@     | ite(dst.channels == 0, 0, cdiv(len(dst.data), dst.channels)))
 //@   ensures[no-alloc: C18] allocs == old(allocs)
+//@   ensures[inert: C20] (len(src.data) == 0 || len(dst.data) == 0) ==> result == 0 && heapSame(dst)
 //@   modifies H(dst)
 //@   loop 1 kernel
 //@     invariant 0 <= $i && $i <= n
@@ -329,7 +351,8 @@ package signal
 //@     decreases n - $i
 
 //@ func SignedAsFloat[S,D](src, dst)
-//@   props C05 C18 C19 C20
+//@   props C05
+//@   variant C20 len(src.data) == 0 || len(dst.data) == 0
 //@   requires wf(src) && wf(dst) && disjoint(src, dst)
 //@   panics-iff[channels: C15] src.channels != dst.channels
 //@   let n = min(len(src.data), len(dst.data))
@@ -340,6 +363,7 @@ package signal
 //@   ensures[count: C05 C20] result == min(ite(src.channels == 0, 0, cdiv(len(src.data), src.channels)),
 //@     | ite(dst.channels == 0, 0, cdiv(len(dst.data), dst.channels)))
 //@   ensures[no-alloc: C18] allocs == old(allocs)
+//@   ensures[inert: C20] (len(src.data) == 0 || len(dst.data) == 0) ==> result == 0 && heapSame(dst)
 //@   modifies H(dst)
 //@   loop 1 kernel
 //@     invariant 0 <= $i && $i <= n
@@ -348,7 +372,8 @@ package signal
 //@     decreases n - $i
 
 //@ func UnsignedAsFloat[S,D](src, dst)
-//@   props C05 C18 C19 C20
+//@   props C05
+//@   variant C20 len(src.data) == 0 || len(dst.data) == 0
 //@   requires wf(src) && wf(dst) && disjoint(src, dst)
 //@   panics-iff[channels: C15] src.channels != dst.channels
 //@   let n = min(len(src.data), len(dst.data))
@@ -359,6 +384,7 @@ package signal
 //@   ensures[count: C05 C20] result == min(ite(src.channels == 0, 0, cdiv(len(src.data), src.channels)),
 //@     | ite(dst.channels == 0, 0, cdiv(len(dst.data), dst.channels)))
 //@   ensures[no-alloc: C18] allocs == old(allocs)
+//@   ensures[inert: C20] (len(src.data) == 0 || len(dst.data) == 0) ==> result == 0 && heapSame(dst)
 //@   modifies H(dst)
 //@   loop 1 kernel
 //@     invariant 0 <= $i && $i <= n
@@ -367,7 +393,8 @@ package signal
 //@     decreases n - $i
 
 //@ func SignedAsSigned[S,D](src, dst)
-//@   props C05 C18 C19 C20
+//@   props C05
+//@   variant C20 len(src.data) == 0 || len(dst.data) == 0
 //@   requires wf(src) && wf(dst) && disjoint(src, dst)
 //@   panics-iff[channels: C15] src.channels != dst.channels
 //@   let n = min(len(src.data), len(dst.data))
@@ -378,6 +405,7 @@ package signal
 //@   ensures[count: C05 C20] result == min(ite(src.channels == 0, 0, cdiv(len(src.data), src.channels)),
 //@     | ite(dst.channels == 0, 0, cdiv(len(dst.data), dst.channels)))
 //@   ensures[no-alloc: C18] allocs == old(allocs)
+//@   ensures[inert: C20] (len(src.data) == 0 || len(dst.data) == 0) ==> result == 0 && heapSame(dst)
 //@   modifies H(dst)
 //@   loop 1 kernel
 //@     invariant 0 <= $i && $i <= n
@@ -391,7 +419,8 @@ package signal
 //@     decreases n - $i
 
 //@ func SignedAsUnsigned[S,D](src, dst)
-//@   props C05 C18 C19 C20
+//@   props C05
+//@   variant C20 len(src.data) == 0 || len(dst.data) == 0
 //@   requires wf(src) && wf(dst) && disjoint(src, dst)
 //@   panics-iff[channels: C15] src.channels != dst.channels
 //@   let n = min(len(src.data), len(dst.data))
@@ -402,6 +431,7 @@ package signal
 //@   ensures[count: C05 C20] result == min(ite(src.channels == 0, 0, cdiv(len(src.data), src.channels)),
 //@     | ite(dst.channels == 0, 0, cdiv(len(dst.data), dst.channels)))
 //@   ensures[no-alloc: C18] allocs == old(allocs)
+//@   ensures[inert: C20] (len(src.data) == 0 || len(dst.data) == 0) ==> result == 0 && heapSame(dst)
 //@   modifies H(dst)
 //@   loop 1 kernel
 //@     invariant 0 <= $i && $i <= n
@@ -415,7 +445,8 @@ package signal
 //@     decreases n - $i
 
 //@ func UnsignedAsSigned[S,D](src, dst)
-//@   props C05 C18 C19 C20
+//@   props C05
+//@   variant C20 len(src.data) == 0 || len(dst.data) == 0
 //@   requires wf(src) && wf(dst) && disjoint(src, dst)
 //@   panics-iff[channels: C15] src.channels != dst.channels
 //@   let n = min(len(src.data), len(dst.data))
@@ -426,6 +457,7 @@ package signal
 //@   ensures[count: C05 C20] result == min(ite(src.channels == 0, 0, cdiv(len(src.data), src.channels)),
 //@     | ite(dst.channels == 0, 0, cdiv(len(dst.data), dst.channels)))
 //@   ensures[no-alloc: C18] allocs == old(allocs)
+//@   ensures[inert: C20] (len(src.data) == 0 || len(dst.data) == 0) ==> result == 0 && heapSame(dst)
 //@   modifies H(dst)
 //@   loop 1 kernel
 //@     invariant 0 <= $i && $i <= n
@@ -439,7 +471,8 @@ package signal
 //@     decreases n - $i
 
 //@ func UnsignedAsUnsigned[S,D](src, dst)
-//@   props C05 C18 C19 C20
+//@   props C05
+//@   variant C20 len(src.data) == 0 || len(dst.data) == 0
 //@   requires wf(src) && wf(dst) && disjoint(src, dst)
 //@   panics-iff[channels: C15] src.channels != dst.channels
 //@   let n = min(len(src.data), len(dst.data))
@@ -450,6 +483,7 @@ package signal
 //@   ensures[count: C05 C20] result == min(ite(src.channels == 0, 0, cdiv(len(src.data), src.channels)),
 //@     | ite(dst.channels == 0, 0, cdiv(len(dst.data), dst.channels)))
 //@   ensures[no-alloc: C18] allocs == old(allocs)
+//@   ensures[inert: C20] (len(src.data) == 0 || len(dst.data) == 0) ==> result == 0 && heapSame(dst)
 //@   modifies H(dst)
 //@   loop 1 kernel
 //@     invariant 0 <= $i && $i <= n
@@ -474,9 +508,10 @@ package signal
 //@   ensures[width: C13] result == width(T)
 
 //@ func Alloc[T](a)
-//@   props C13 C10 C20
+//@   props C10 C12 C13
 //@   insts named
 //@   theory defined
+//@   variant C20 a.Channels == 0 || a.Capacity == 0 || a.Length == 0
 //@   requires 0 <= a.Channels && 0 <= a.Length && a.Length <= a.Capacity && bi(a.Channels, 0, a.Capacity) <= pow2(48)
 //@   ensures[fresh: C13 C10] fresh(result) && freshStorage(result)
 //@   ensures[shape: C13 C10 C20] result.channels == a.Channels && len(result.data) == bi(a.Channels, 0, a.Length)
@@ -487,6 +522,7 @@ package signal
 //@   ensures[wf] wf(result)
 //@   ensures[others-untouched: C13 C10] heapSameBelow(result) && hdrSameExcept(result)
 //@   ensures[allocs] allocs == old(allocs) + 2
+//@   ensures[inert: C20] (a.Channels == 0 || a.Capacity == 0) ==> len(result.data) == 0 && cap(result.data) == 0
 //@   modifies H(T) hdr(T) brk(T) obj(T) allocs
 
 // ---------------------------------------------------------------------------
@@ -494,8 +530,9 @@ package signal
 // ---------------------------------------------------------------------------
 
 //@ func alignCapacity(s, channels, c)
-//@   props C03 C12 C20
+//@   props C03 C12
 //@   theory defined
+//@   variant C20 channels == 0
 //@   let s = anyDataPtr(int8)
 //@   requires[wfBase] wfBase(bufOf(s))
 //@   requires[channels] channels == bufOf(s).channels
@@ -509,19 +546,21 @@ package signal
 //@   modifies hdr(s)
 
 //@ func Buffer.Append(dst, src)
-//@   props C03 C12 C18 C20
-//@   requires wf(dst) && wf(src) && aligned(dst) && aligned(src)
+//@   props C03 C12
+//@   variant C20 len(src.data) == 0 && len(dst.data) == 0
+//@   requires wf(dst) && wf(src)
 //@   requires src == dst || spareDisjoint(src, dst)
 //@   panics-iff[channels: C15] dst.channels != src.channels
 //@   let m0 = len(dst.data)
 //@   let n0 = len(src.data)
 //@   let ch = dst.channels
-//@   hint bi_add(ch, fdiv(m0, ch), fdiv(n0, ch))
-//@   hint fdiv_def(m0, ch)
-//@   hint fdiv_def(n0, ch)
 //@   hint fdiv_def(cap(dst.data), ch)
-//@   hint mul_div(ch, fdiv(m0, ch) + fdiv(n0, ch))
-//@   callhint alignCapacity align_covers(cap(dst.data), ch, m0 + n0)
+//@   hint cdiv_def(m0 + n0, ch)
+//@   hint bi_comm(cdiv(m0 + n0, ch), ch)
+//@   hint aligned_ge(cap(dst.data), ch)
+//@   hint aligned_ge(cap(src.data), ch)
+//@   callhint alignCapacity fdiv_ge(cap(dst.data), ch, cdiv(m0 + n0, ch))
+//@   callhint alignCapacity bi_le(ch, cdiv(m0 + n0, ch), fdiv(cap(dst.data), ch))
 //@   ensures[len: C03 C12 C20] len(dst.data) == m0 + n0
 //@   ensures[prefix: C03 C12] forall(p, 0, m0, at(dst, p) == old(at(dst, p)))
 //@   ensures[suffix: C03 C12] forall(p, 0, n0, at(dst, m0 + p) == old(at(src, p)))
@@ -531,6 +570,7 @@ package signal
 //@   ensures[capacity: C03 C12] wf(dst) && dst.channels == ch
 //@   ensures[source: C03] src != dst ==> len(src.data) == n0 && ptr(src.data) == old(ptr(src.data)) && cap(src.data) == old(cap(src.data))
 //@   ensures[others: C03 C12] hdrSameExcept(dst)
+//@   ensures[inert: C20] (old(len(src.data)) == 0 && old(len(dst.data)) == 0) ==> len(dst.data) == 0
 //@   modifies H(dst) hdr(dst) brk(dst) allocs
 //@   loop 1
 //@     invariant 0 <= $i && $i <= n0
@@ -543,8 +583,10 @@ package signal
 // ---------------------------------------------------------------------------
 
 //@ func WriteStriped[S,D](src, dst)
-//@   props C01 C18 C19 C20
+//@   props C01
 //@   theory axioms
+//@   variant C20 len(dst.data) == 0
+//@   hint bi_zero(dst.channels)
 //@   requires wf(dst) && aligned(dst)
 //@   requires forall(c, 0, len(src), disjoint(src[c], dst))
 //@   panics-iff[slices: C15] dst.channels != len(src)
@@ -558,6 +600,7 @@ package signal
 //@     |   at(dst, bi(ch, c, i)) == ite(i < len(src[c]), conv(S, D, old(src[c][i])), zero(D))))
 //@   ensures[frame: C01 C19 C20] sameExcept(dst, 0, bi(ch, 0, result))
 //@   ensures[no-alloc: C18] allocs == old(allocs)
+//@   ensures[inert: C20 opaque] len(dst.data) == 0 ==> result == 0 && heapSame(dst)
 //@   modifies H(dst)
 //@   loop 1
 //@     invariant 0 <= $i && $i <= len(src) && 0 <= written
@@ -582,8 +625,9 @@ package signal
 //@     decreases written - $i
 
 //@ func ReadStriped[S,D](src, dst)
-//@   props C01 C18 C19 C20
+//@   props C01
 //@   theory axioms
+//@   variant C20 len(src.data) == 0
 //@   requires wf(src) && aligned(src)
 //@   requires forall(c, 0, len(dst), disjoint(src, dst[c]))
 //@   requires forall(a, 0, len(dst), forall(b, 0, len(dst), a != b ==> disjoint(dst[a], dst[b])))
@@ -599,6 +643,7 @@ package signal
 //@   ensures[frame: C01 C19 C20] forallInt(q, (forall(c, 0, ch, !(ptr(dst[c]) <= q && q < ptr(dst[c]) + min(len(dst[c]), L))))
 //@     |   ==> cell(D, q) == old(cell(D, q)))
 //@   ensures[no-alloc: C18] allocs == old(allocs)
+//@   ensures[inert: C20 opaque] len(src.data) == 0 ==> result == 0 && heapSame(dst)
 //@   modifies H(dst)
 //@   loop 1
 //@     invariant 0 <= $i && $i <= ch && 0 <= read && read <= L
